@@ -248,6 +248,11 @@ var c17Calls = []c17Call{
 	{"t('x')", "t", 1, "call", "", []string{`String:"x"`}},
 	{"Patient.name.t('x')", "t", 1, "call", "names", []string{`String:"x"`}},
 	{"t('fail')", "t", 1, "sentinel", "", []string{`String:"fail"`}},
+	// the error of a custom function is the evaluation's error also when only one of several items raises it
+	{"Patient.name.select(t(iif(use = 'official', 'fail', 'x')))", "t", 1, "sentinel", "", nil},
+	{"Patient.name.select(t(iif(use = 'official', 'x', 'fail')))", "t", 1, "sentinel", "", nil},
+	{"Patient.name.where(t(iif(use = 'official', 'fail', 'x')).exists()).count()", "t", 1, "sentinel", "", nil},
+	{"Patient.name.all(t(iif(use = 'official', 'x', 'fail')).exists())", "t", 1, "sentinel", "", nil},
 	{"t(1)", "t", 1, "arg-error", "", nil},
 	{"t({})", "t", 1, "arg-error", "", nil},
 	{"t(Patient.name.family)", "t", 1, "arg-error", "", nil},
